@@ -1464,6 +1464,9 @@ LEMMAS = [
 ]
 
 TRUSTED = [
+    "OptimizerMixin (round 5): torch.optim optimizers / lr_scheduler objects are opaque collaborators (their step / zero_grad / param_groups do not write the mixin's own fields); "
+    "set_optimizer / set_scheduler are used through call-site stubs that record their argument - what torch builds from the stored parameters is outside deductive reach; "
+    "the link 'same stored parameters + same seed => same loss history' is decided only by the bounded seeded-rerun stand-in",
     "numpy Generator.permutation(x) = x composed with a bijection of [0,len)",
     "numpy setdiff1d(a,b) = sorted unique elements of a not in b",
     "T1 telescoping: sum_k (P(k+1)-P(k)) = P(n)-P(0) - lemmas/discrete.lean D3, proved from Mathlib in the thorough tier",
